@@ -505,7 +505,7 @@ func (g *ygen) entryComments(holder, v *YN, cd int, where string) {
 
 // ---- scalars ---------------------------------------------------------------------------------
 
-var yInts = []string{"0", "1", "-1", "12", "42", "-7", "100", "65536", "0x1F", "0o17", "+3", "9223372036854775807", "123456789012345678901"}
+var yInts = []string{"0", "1", "-1", "12", "42", "-7", "100", "65536", "0x1F", "0o17", "0644", "007", "-007", "00", "1_000", "+3", "9223372036854775807", "123456789012345678901"}
 var yFloats = []string{"1.5", "-2.25", "1e3", "3.0", "1.50", "6.02e+23", ".inf", "-.inf", ".nan", "0.1"}
 var yBools = []string{"true", "false", "True", "FALSE"}
 var yNulls = []string{"null", "~", "Null", ""}
